@@ -64,7 +64,7 @@ func verifMap(tag, key string, n int, line int) *parser.YamlMap {
 	m := &parser.YamlMap{Key: &parser.YamlNode{Value: key, Pos: verifPos(line)}}
 	for i := 0; i < n; i++ {
 		m.Items = append(m.Items, &parser.YamlKeyValue{
-			Key:   verifNode(tag+"k"+verifItoa(i), line+1+i),
+			Key:   verifNode(tag+"k"+verifItoa(i), line+1+i, "team"), // "team": also a member of the key patterns' domain
 			Value: verifNode(tag+"v"+verifItoa(i), line+1+i, verifValueCands...),
 		})
 	}
@@ -102,6 +102,18 @@ func verifMkEntry() discovery.Entry {
 	}
 	e.Rule.Lines = diags.LineRange{First: 1, Last: 9}
 	return e
+}
+
+// recording rule, no labels of its own, group labels that lack a non-empty value for the required key
+func verifGroupLabelsOnly(e discovery.Entry, key string, required bool) bool {
+	if !required || e.Rule.RecordingRule == nil || e.Rule.RecordingRule.Labels != nil || e.Group == nil || e.Group.Labels == nil {
+		return false
+	}
+	missing := true
+	for _, kv := range e.Group.Labels.Items {
+		missing = verifAnd(missing, verifOr(kv.Key.Value != key, kv.Value.Value == ""))
+	}
+	return missing
 }
 
 // a pattern as the configuration spells it: any of 2 anonymous strings or, where the code tests for it, the empty one
@@ -148,7 +160,7 @@ func VerifHarness_RuleName() {
 // shape bits: 1 = token set, 2 = value set, 4 = required, 8 = a list of allowed values
 func verifKeyTokenValue() (keyRe, tokenRe, valueRe *TemplatedRegexp, values []string, required bool, broken bool) {
 	shape := verifParam("shape")
-	key := verifPattern("key")
+	key := verifPattern("key", "team") // a key pattern may be the literal name of a label (LabelCheck looks it up by text)
 	_, err := NewTemplatedRegexp(key)
 	verifAssume(err == nil)
 	broken = verifBroken("^" + key + "$")
@@ -178,6 +190,9 @@ func VerifHarness_Label() {
 	e := verifMkEntry()
 	keyRe, tokenRe, valueRe, values, required, broken := verifKeyTokenValue()
 	verifSig("C18-mustexpand-nil", broken)
+	// genuine defect found by the (V) harness (notes/C18.md): a recording rule without labels of its own in a group that
+	// has group labels: the "required label not set" report reads entry.Rule.RecordingRule.Labels, which is nil
+	verifSig("C18-label-required-group-labels-only", verifGroupLabelsOnly(e, keyRe.original, required))
 	c := NewLabelCheck(keyRe, tokenRe, valueRe, values, required, "", Warning)
 	_ = c.String()
 	problems := c.Check(context.Background(), e, nil)
